@@ -127,8 +127,6 @@ Fixpoint wire0_fields (fs : list (bool * goty)) : bool :=
   match fs with [] => true | (ex, t) :: r => (negb ex || wire0 t) && wire0_fields r end.
 Fixpoint supported_fields (fs : list (bool * goty)) : bool :=
   match fs with [] => true | (ex, t) :: r => (negb ex || supported t) && supported_fields r end.
-Fixpoint lin_fields (fs : list (bool * goty)) : bool :=
-  match fs with [] => true | (ex, t) :: r => (negb ex || lin_ty t) && lin_fields r end.
 Fixpoint tsize_fields (fs : list (bool * goty)) : N :=
   match fs with [] => 0 | (_, t) :: r => tsize t + tsize_fields r end.
 Fixpoint kK_fields (fs : list (bool * goty)) : N :=
@@ -182,8 +180,6 @@ Proof. reflexivity. Qed.
 Lemma wire0_struct fs : wire0 (TStruct fs) = wire0_fields fs.
 Proof. reflexivity. Qed.
 Lemma supported_struct fs : supported (TStruct fs) = supported_fields fs.
-Proof. reflexivity. Qed.
-Lemma lin_struct fs : lin_ty (TStruct fs) = lin_fields fs.
 Proof. reflexivity. Qed.
 Lemma tsize_struct fs : tsize (TStruct fs) = tsize_fields fs.
 Proof. reflexivity. Qed.
@@ -1113,8 +1109,8 @@ Lemma w_hostile_length :
 Proof. repeat split. Qed.
 
 (** slices of elements that occupy no bytes, nested in a slice: every inner slice announces as many elements as
-    bytes remain; the Reader's element budget (at most len(buf) slice elements in total) stops it at the second
-    inner slice: 804 input bytes, 1 iteration of the outer loop *)
+    bytes remain; the Reader's element budget (at most len(buf) slice elements in total) stops it at the first
+    inner slice: 804 input bytes, 4800 bytes requested (the outer slice of 200 headers), no iteration *)
 Fixpoint bomb_tail (k : nat) : bytes := match k with O => [] | S j => put_u32 (4 * N.of_nat j) ++ bomb_tail j end.
 Definition bomb (k : nat) : bytes := put_u32 (N.of_nat k) ++ bomb_tail k.
 Lemma w_nested_wire0 :
